@@ -958,9 +958,15 @@ def run(ctx):
                'rotation: all pre-existing dated files are older than the handler\'s start day (no clock set back); one record '
                'is written before the first rollover (mlzlog\'s doRollover needs an open stream)',
                'a real file system under tempfile.mkdtemp() is used for rotation (removed afterwards)')
+    if not only or 'conc' in only:
+        from vf.harness import c20conc
+        c20conc.run_conc(ctx)       # disconnect / logging request / log record at the same time (schedx)
 
 
 def replay(case):
+    if case.get('kind') == 'conc':
+        from vf.harness import c20conc
+        return c20conc.replay_conc(case)
     part = core.Part()
     if case['kind'] == 'records':
         tmp = tempfile.mkdtemp(prefix='vf-c20-')
